@@ -9,8 +9,10 @@ from check import Failure
 from sfv.canon import tok, untok, err_cat
 from sfv.props import ixcommon as ic
 from sfv.props.ixcommon import H, HT, Interner, parse_answer, check_bijection
+from sfv import locmap_hook            # regenerates Gen/LocMap.lean with the other translators (see the module)
+from sfv.props import locmap_grid as lmg
 
-TARGETS = ['SFModel.Props.C02']
+TARGETS = ['SFModel.Props.C02'] + locmap_hook.TARGETS
 THEOREMS = [
     'SF.C02.mk_ok_iff_nodup', 'SF.C02.wf_bijection', 'SF.C02.bijection', 'SF.C02.auto_bijection',
     'SF.C02.slice_inclusive', 'SF.C02.slice_inclusive_descending', 'SF.C02.go_history', 'SF.C02.extend_atomic', 'SF.C02.append_rejected_unchanged',
@@ -20,8 +22,11 @@ THEOREMS = [
     'SF.C02.fromLabels_populated', 'SF.C02.level_drop_inner_spec', 'SF.C02.level_drop_inner_bijection', 'SF.C02.levelDropInnerPinned_counterexample',
     'SF.C02.level_drop_inner_repaired_example', 'SF.C02.level_drop_outer_spec', 'SF.C02.level_drop_outer_shared_label_example',
     'SF.C02.levelDropOuterPinned_counterexample', 'SF.C02.level_drop_outer_repaired_example',
-]
-PARTIAL = []
+    # + LocMap.map_slice_args / the slice branch of LocMap.loc_to_iloc TRANSLATED from the current source = the hand-mirrored
+    # Index.mapSliceArgs / Index.locMap the theorems above (slice_inclusive, slice_inclusive_descending) are about
+    # (BRIDGE_THEOREMS), and those theorems restated for the translated source (GEN_THEOREMS)
+] + locmap_hook.BRIDGE_THEOREMS + locmap_hook.GEN_THEOREMS
+PARTIAL = [locmap_hook.PARTIAL]
 CORR_ONLY = [
     'aliasing of tree nodes (shared ArrayGO of targets built by from_product, un-shared by the copy in IndexHierarchy.__init__): the Lean '
     'Level is a value tree without object identity; covered by the oracle only (grow-only histories start from every construction / '
@@ -35,8 +40,9 @@ RULE = ('label sequences over typed pools (str/int/float/bool/tuple/mixed object
         'with and without repeats) x index class x construction route; auto-integer indices; append/extend histories from mapped and '
         'loc_is_iloc starts; tuple sequences (tree-ordered, non-tree, repeated) x hierarchy routes; derivation routes on flat and hierarchical '
         'indices; thorough: all label lists of length <= 5 over 4 letters, all histories of length <= 4 over 4 candidates from auto starts 0..3, '
-        'all tuple sequences of length <= 4 over a 2x2 alphabet; non-trivial = at least 2 labels or an error branch; distinct = canonical case JSON')
-TRUSTED = ['sfv.canon.hash_class / ixcommon.H as the reading of Python label identity']
+        'all tuple sequences of length <= 4 over a 2x2 alphabet; every run: the grid of ALL label slices (start, stop in labels + None + absent, '
+        'step in None/1/2/-1/-2, offset None/0/3) over label lists of length 0..4 against the translated LocMap functions; non-trivial = at least 2 labels or an error branch; distinct = canonical case JSON')
+TRUSTED = ['sfv.canon.hash_class / ixcommon.H as the reading of Python label identity', locmap_hook.TRUSTED]
 ASSUMPTIONS = ['NaN labels excluded (as in the property text)', 'negative integers on auto-integer indices are not probed (finding F13 belongs to C04)']
 BUDGET = {'quick': 70, 'thorough': 700}
 
@@ -50,6 +56,8 @@ DERIVE_IH = ['iloc', 'loc', 'drop_iloc', 'relabel_func', 'roll', 'sort', 'union'
 
 def nontrivial(c):
     k = c['k']
+    if k == lmg.K:
+        return lmg.nontrivial(c)
     if k == 'flat':
         return len(c['toks']) >= 2
     if k == 'auto':
@@ -241,6 +249,8 @@ def cases(ctx):
     rng = ctx.rng('main')
     quick = ctx.tier == 'quick'
     scale = 5 if quick else 60
+    # grid cross-check of the translated LocMap.map_slice_args / slice branch of LocMap.loc_to_iloc (every run)
+    yield from lmg.cases(ctx, npstep=True)
     if not quick:
         # exhaustive small scopes
         letters = ['a', 'b', 'c', 'd']
@@ -440,6 +450,8 @@ def tuples_wire(tups, intern):
 
 def model_lines(c):
     k = c['k']
+    if k == lmg.K:
+        return lmg.model_lines(c)
     intern = Interner()
     if k == 'flat':
         vals = flat_vals(c)
@@ -677,6 +689,8 @@ def compare_ikey(model_ans, real, n):
 def evaluate(ctx, c, outs):
     k = c['k']
     ctx.count('kind_' + k)
+    if k == lmg.K:
+        return lmg.evaluate(ctx, c, outs)
     if k == 'flat':
         return eval_flat(ctx, c, outs)
     if k == 'auto':
@@ -1456,4 +1470,8 @@ def classify(f):
     d = f.detail or {}
     if c.get('k') == 'flat' and f.kind == 'oracle' and d.get('negstep') and c.get('kind') in ic.DT_CLASS:
         return 'F48-datetime-label-slice-negative-step-stop'
+    if c.get('k') == lmg.K and f.kind == 'oracle' and c.get('npstep') and d.get('npstep') and d.get('key'):
+        ka, kb, st = d['key']
+        if st is not None and st < 0 and kb is not None and kb != -1 and ka != -1:
+            return 'F90-numpy-integer-step-label-slice-stop'
     return None
